@@ -45,9 +45,9 @@ CHECKS = {
  "C17": (MC, "complete enumeration of the finite conformance matrix (416 vectors), tools rebuilt from the tree",
          "All 416 expectations: binaries regenerated by the reference encoder and pinned by the LFS sha256; read tool streamed on all, indexed on the admitted variants, write tool byte-exact on the 208 non-padded ones.", TB, "DESIGN §4 C17"),
  "C18": (MC, "exhaustive enumeration of generated bags and SQLite databases plus truncation/field-mutation corruptions, converted in isolated worker processes and decoded by the reference decoder",
-         "Every generated bag (connection id sets, shared/distinct type+md5, message variants, every chunk partition x per-chunk compression, repeated connection records, unchunked, 3 writer configurations) and database (topic/type combinations incl. non-message types, QoS column, equal timestamps) at the stated scope must convert to a valid MCAP with every message in order and the right channels/schemas; every truncation and positional field mutation of a bag must yield an error, never a panic, process exit, fatal error or stall.", TB + " The harness' bag encoder follows the ROS bag v2.0 specification and is cross-checked against go-rosbag's readers on every bag; a second family of bags is written by go-rosbag's writer; SQLite via the cached go-sqlite3 driver.", "DESIGN §4 C18"),
+         "Every generated bag (connection id sets, shared/distinct type+md5, message variants, every chunk partition x per-chunk compression, repeated connection records, unchunked, 3 writer configurations) and database (topic/type combinations incl. non-message types, QoS column, equal timestamps) at the stated scope must convert to a valid MCAP with every message in order and the right channels/schemas; valid bags whose record parts cross the converter's buffer sizes (1 KiB / 1 MiB and twice those) must convert exactly; every truncation and positional field mutation of a bag must yield an error, never a panic, process exit, fatal error or stall.", TB + " The harness' bag encoder follows the ROS bag v2.0 specification and is cross-checked against go-rosbag's readers on every bag; a second family of bags is written by go-rosbag's writer; SQLite via the cached go-sqlite3 driver.", "DESIGN §4 C18"),
  "C19": (MC, "exhaustive enumeration of small type graphs, short strings and definition mutations in isolated worker processes",
-         "Every type graph at the stated scope (incl. cyclic) must parse to the generating tree (acyclic) and every input - all strings up to length L over a 9-symbol alphabet, all single-token mutations - must return ok/error inside a worker with capped address space and stack, never die or stall.", TB, "DESIGN §4 C19"),
+         "Every type graph at the stated scope (incl. cyclic) must parse to the generating tree (acyclic) and every input - all strings up to length L over a 9-symbol alphabet and over the separator/marker alphabet, all single-token mutations incl. markers without a type name; deep and wide graphs (all 16 primitives, chains to depth 5, diamonds, homonyms in two packages) - must return ok/error inside a worker with capped address space and stack, never die or stall.", TB, "DESIGN §4 C19"),
  "C20": (MC, "exhaustive small arrangements plus deterministic large families with the verif slot hook; attachment streaming measured in an idle worker",
          "After every NextInto the hook-reported chunk slots must stay within the model's overlap depth (1 in file order) for every <=3x3 arrangement and for N in {10,100,1000} x depth 1..8 x 3 shapes; buffers bounded by the largest chunk; attachments up to 16 MiB/256 MiB stream through writer, lexer and iterator in constant memory.", TB + " Memory oracles use generous fixed slack and no time component.", "DESIGN §4 C20"),
 }
